@@ -25,7 +25,7 @@ R.contract('labtech.runners.base:run_or_load_task',
     returns='Res',
     ensures=[C("implies(use_cache or forall('Inst', lambda i: implies(i in depinsts(task), (not isnone(i._results_map)) and RESOK(unopt(i._results_map)))), result.value == EVAL(Inst_to_Task(task)))",
                'A-run/A-cache0: the value produced from correct dependency results (or loaded from an entry written by save for this task) is the reference value',
-               serves=('C01',))],
+               serves=('A-run',))],
     raises={'BaseException': []},
     frame=['Inst.context'],
     note='structure (context before run, one run, save after, finally) is verified in contracts/c50_cache.py; the value clause is the assumption A-run on user code')
@@ -63,7 +63,7 @@ R.func('res_of', ['Res'], 'Task')        # GHOST: the task whose execution/load 
 R.func('fut_task', ['Fut'], 'Task')      # GHOST: the task a future was created for (fixed at creation: the thunk closes over it)
 R.macros['RESOK'] = (['m'], "forall('Task', lambda d: implies(d in m, (res_of(m[d]) == d) and (m[d].value == EVAL(d))))")
 R.contracts['labtech.runners.base:run_or_load_task'].ensures.append(
-    C("res_of(result) == Inst_to_Task(task)", 'the result object belongs to this task', serves=('C01',)))
+    C("res_of(result) == Inst_to_Task(task)", 'GHOST definition: the result object returned here is the result of this task', serves=('A-run',)))
 
 R.contract(f'{PRK}._consume_log_queue', self_type='Obj[ProcessRunner]', params={}, frame=[], trusted=True,
     note='log forwarding; its delivery contract is C19\'s (contracts/c70_logging.py)')
